@@ -127,6 +127,8 @@ def options(scn):
         o.append("inherited-ignored:" + "+".join(scn["ignored"]))
     if scn.get("warn_operand"):
         o.append("warning-only-operand" + ("+-Q" if scn.get("no_warn") else ""))
+    if scn.get("verbose"):
+        o.append("opt:-v")
     if scn["abs"]:
         o.append("opt:absolute-paths")
     if scn["damage"]:
@@ -233,6 +235,8 @@ class Plan:
             a.append("-T%d" % s["threads"])
         if s.get("no_warn"):
             a.append("-Q")
+        if s.get("verbose"):
+            a.append("-v")
         if s["via_files"]:
             a.append("--files=zz-list")
         else:
@@ -702,7 +706,7 @@ def evaluate(plan, judge, S, res, baseline=False):
         signum = int(SIGNUM[signame])
         if not all_done and rc == 0:
             raise base.Violation("C17:status-zero-after-signal", "SIG%s delivered, work not completed (%s) but exit status 0; %s" % (signame, state, why()))
-        if all_done and all(plan.expect_done):
+        if True:     # (also when another pair of the invocation was expected to fail: what counts is that xz went on moving data after the signal)
             later = [e for e in tr if e["i"] >= fired["i"] and e["res"] is not None and e["res"] > 0 and
                      ((e["name"] == "read" and role_kind(e["role"])[0] == "source") or (e["name"] == "write" and role_kind(e["role"])[0] in ("target", "stdout")))]
             if len(later) > SIGNAL_SLACK:
@@ -936,7 +940,7 @@ def _scenario(draw):
             faults.append(f)
     return {
         "mode": mode, "fmt": fmt, "stdout": stdout, "via_files": via_files, "keep": keep, "force": force, "pre_target": pre_target, "nosync": nosync,
-        "ignored": ignored, "warn_operand": warn_operand, "no_warn": no_warn,
+        "ignored": ignored, "warn_operand": warn_operand, "no_warn": no_warn, "verbose": draw(st.sampled_from([False, False, True])),
         "threads": threads, "abs": draw(st.sampled_from([False, False, True])), "names": list(names), "contents": contents, "damage": damage,
         "preset": draw(st.sampled_from([0, 0, 0, 1, 1, 6])), "check": draw(st.sampled_from(["crc64", "crc64", "crc32", "sha256"])),
         "faults": faults, "picks": draw(st.lists(st.integers(0, 99999), min_size=32, max_size=32)),
@@ -970,12 +974,15 @@ def fixed_scenarios(S, tier, seed):
             raise
     # the invoking environment: signals inherited as ignored (xz must keep ignoring exactly those and still handle the others), and a
     # warning-only operand next to a failing file with -Q (the failure must still decide the exit status)
-    for extra in ({"ignored": ["INT"], "faults": ["signal=TERM", "signal=INT", "signal=HUP"]}, {"ignored": ["HUP"], "faults": ["signal=INT", "signal=HUP"]},
+    for extra in ({"verbose": True, "mode": "decompress", "names": ["a", "b"], "damage": {"kind": "truncate", "num": 30}, "faults": ["signal=TERM", "signal=INT"], "two": True},
+                  {"ignored": ["INT"], "faults": ["signal=TERM", "signal=INT", "signal=HUP"]}, {"ignored": ["HUP"], "faults": ["signal=INT", "signal=HUP"]},
                   {"warn_operand": True, "no_warn": True, "faults": ["errno=ENOSPC", "errno=EIO"]}, {"warn_operand": True, "no_warn": False, "faults": ["errno=EIO", "signal=TERM"]}):
         scn = {"mode": r.choice(["compress", "decompress"]), "fmt": "xz", "stdout": None, "via_files": False, "keep": False, "force": False, "pre_target": False, "nosync": True,
                "threads": 1, "abs": False, "names": ["a"], "contents": [{"kind": "text", "size": 40000 + r.randrange(0, 3000), "seed": r.randrange(0, 2**31 - 1)}], "damage": None, "preset": 0, "check": "crc64",
                "ignored": [], "warn_operand": False, "no_warn": False, "picks": [r.randrange(0, 99999) for _ in range(32)]}
         scn.update(extra)
+        if scn.pop("two", False):
+            scn["contents"] = scn["contents"] + [{"kind": "random", "size": 60000 + r.randrange(0, 3000), "seed": r.randrange(0, 2**31 - 1)}]
         S.evaluations += 1
         S.count("fixed_environment_scenarios")
         try:
